@@ -1249,6 +1249,8 @@ class Interp:
                 b = self.eval(e.args[0].right, env, globs)
                 if all(isinstance(x, (SInt, int)) and not isinstance(x, bool) for x in (a, b)) and (is_sym(a) or is_sym(b)):
                     self.lemmas.append((a, b))
+                    if callable(self.ceil_cut):
+                        self.ceil_cut(self, a, b)      # the caller states the lemma's domain as side conditions
                     # ceil(a/b) == -((-a) // b) over the integers
                     na = self.binop(ast.Sub, 0, a)
                     return self.binop(ast.Sub, 0, self.binop(ast.FloorDiv, na, b))
